@@ -58,6 +58,6 @@ func VerifC09_total() {
 	if vfTier() == 1 {
 		nd = len(vfDecoNames)
 	}
-	vfRenderAll(t, nd, false)
+	vfRenderAll(t, nd, true)
 	vfAssert(true, "no-panic")
 }
